@@ -83,8 +83,9 @@ package protocol
 // readMore (handshake.go): see crypto.readMore.
 //@ func readMore
 //@   requires conn != nil && n >= 0 && m >= 0 && n <= 1<<20 && m <= 1<<20 && len(buf) <= 1<<20
-//@   modifies consumed(conn), buf[__]
+//@   modifies consumed(conn), buf[__], ioFailed(conn)
 //@   ensures  [enough] $r1 == nil ==> len($r0) >= n
+//@   ensures  [nospurious] $r1 != nil ==> ioFailed(conn)
 //@   ensures  [exact]  len($r0) == old(len(buf)) + (consumed(conn) - old(consumed(conn)))
 //@   ensures  [cap]    len($r0) <= max(old(len(buf)), max(n, m))
 //@   ensures  [prefix] forall k int :: 0 <= k && k < old(len(buf)) ==> $r0[k] == old(buf[k])
@@ -112,7 +113,7 @@ package protocol
 // on unchanged as init.
 //@ func ClientHandshake
 //@   requires c != nil && len(infoHash) == 20 && len(myid) == 20 && !cryptoHandshake
-//@   modifies consumed(c)
+//@   modifies consumed(c), ioFailed(c)
 //@   ensures  [took]  err == nil ==> consumed(c) - old(consumed(c)) >= 68 && len(init) == consumed(c) - old(consumed(c)) - 68
 //@   ensures  [conn]  conn == c
 //@   ensures  [ours]  err == nil ==> forall k int :: 0 <= k && k < 20 ==> streamAt(c, old(consumed(c)) + 28 + k) == infoHash[k]
